@@ -83,3 +83,36 @@ Definition c10_pem_violates (c : pem_case) : bool :=
                    end
          | _ => negb (cls =? 1)
          end.
+
+(* ---------------------------------------------------------------------------------------------
+   The form parameter of the two role paths (parseRoleCertGenParams / parseRefreshRoleCertGenParams):
+   pubkey = base64url WITHOUT padding of the PKIX DER.  r.PostForm.Get takes the FIRST value of a
+   repeated parameter; "" counts as missing.  base64 and the DER parser are library code: what they
+   make of a value is the input. *)
+Inductive pvalue :=
+| PEmpty                         (* the empty string *)
+| PNotBase64                     (* base64.RawURLEncoding.DecodeString fails *)
+| PDer (k : option pkey).        (* decodes; what x509.ParsePKIXPublicKey makes of the bytes *)
+Definition param_pipeline (p : kpath) (values : list pvalue) : outcome :=
+  match values with
+  | [] => ClientError
+  | PEmpty :: _ => ClientError
+  | PNotBase64 :: _ => ClientError
+  | PDer k :: _ => pipeline_of p k k
+  end.
+(* correspondence: (path, values as 0 = empty / 1 = not base64 / 2 = decodes with the parsed key, class) *)
+Definition param_case := (N * list (N * option (N * N * N)) * N)%type.
+Definition pvalue_of (v : N * option (N * N * N)) : pvalue :=
+  if fst v =? 0 then PEmpty else if fst v =? 1 then PNotBase64
+  else PDer (option_map (fun d => let '(kind, a, b) := d in (1, desc_of kind a b)) (snd v)).
+Definition param_model (c : param_case) : outcome := let '(p, vs, _) := c in param_pipeline (kpath_of p) (map pvalue_of vs).
+Definition c10_param_bad (c : param_case) : bool :=
+  let '(_, _, cls) := c in
+  match param_model c with
+  | Signed _ => negb (cls =? 0)
+  | ClientError => negb (cls =? 1)
+  | ServerError => negb (cls =? 2)
+  end.
+Definition c10_param_violates (c : param_case) : bool :=
+  let '(_, _, cls) := c in
+  match param_model c with Signed _ => false | _ => negb (cls =? 1) end.
